@@ -355,6 +355,10 @@ def _diff(a, b, seen=None):
 
 
 def rule_item(ctx, R, F, config='K0'):
+    from rules import a64hsem as _T
+    if _T.STRICT_FAMILY:
+        R.note('rule_item skipped: RXVERIF_STRICT_FAMILY=1 (evaluation on terms switched off, see DESIGN.md 9.2)')
+        return
     R.rule('DS-ITEM', 'initDatasetItem computes the item of specification 7.3: r0 = (item + 1) * mul0, ri = r0 ^ addi, then RANDOMX_CACHE_ACCESSES rounds of [cache line selected by the register value; SuperscalarHash i; '
            'XOR of the eight words of the line; next register value = r[address register of program i]], the eight registers copied to the output - decided by evaluating the body on terms with uninterpreted '
            'SuperscalarHash, line selection and line words (statement order, loop form and temporaries do not matter); getMixBlock masks the line index to the cache size', min_instances=9)
